@@ -51,7 +51,9 @@ class FakeSlugs(object):
                 beh = ('json', {'user': user})
         kind = beh[0]
         if kind == 'raise':
-            raise ConnectionError('simulated: SLUGS unreachable')
+            import requests
+            raise requests.exceptions.ConnectionError(
+                'simulated: SLUGS unreachable')
         if kind == 'status':
             return self._Resp(beh[1], {})
         if kind == 'badjson':
@@ -59,8 +61,10 @@ class FakeSlugs(object):
         return self._Resp(200, beh[1])
 
     # the real module attributes slugs.py might touch
-    class exceptions(object):
-        RequestException = Exception
+    @property
+    def exceptions(self):
+        import requests
+        return requests.exceptions
 
 
 SLUGS = FakeSlugs()
